@@ -659,6 +659,10 @@ class Process:
             return True
         except NoSuchProcess:
             self._gone = True
+            # The entry cached by process_iter() for this PID (if any)
+            # is stale: have it dropped, so that a new process which
+            # gets the same PID is given a new Process instance.
+            _pids_reused.add(self.pid)
             return False
 
     # --- actual API
